@@ -91,7 +91,7 @@ def main(tier):
                'group names are decimal strings and order as strings)', 'file placement supplied by stubs (decided in C13)',
                'collections.OrderedDict replaced by an insertion-ordered list-backed mapping; numpy helpers by a list-backed shim')
     rep.outside_claim('value fidelity of scalars / strings / arrays through h5py and HDF5', 'more than 3 samples / 3 files per harness; indices >= 1000 in the harness channel')
-    res = chx.run_module('meta', per_condition_timeout=180 if tier == 'quick' else 900)
+    res = chx.run_module('meta', names=list(TITLES), per_condition_timeout=180 if tier == 'quick' else 900)
     rd = lambda kw: REPLAY % (kw, 'read'); wr = lambda kw: REPLAY % (kw, 'write')
     chx.report(rep, res, TITLES, replays={'_bounds': rd, '_read_range': rd, '_read_ffill': rd, '_read_latest': rd, '_read_column': rd, '_write_dict_forms': wr, '_write_subdirs': lambda kw: REPLAY_SUBDIRS % (kw,)},
                sigs={k: 'C12.' + k.strip('_') for k in TITLES})
